@@ -7,7 +7,7 @@ import ast
 from dataclasses import dataclass, field
 from typing import Dict, List, Optional, Set, Tuple
 
-from .model import ClassInfo, FuncInfo, Module, Project, walk_local
+from .model import AnalysisError, ClassInfo, FuncInfo, Module, Project, walk_local
 
 BASE_NAME = "McpPydanticBase"
 CONSTRAINT_KW = ("ge", "le", "gt", "lt", "min_length", "max_length", "pattern", "multiple_of", "min_items", "max_items")
@@ -151,6 +151,12 @@ class ModelTable:
             from .consteval import try_fold
 
             inner = v.args[0] if isinstance(v, ast.Call) and len(v.args) == 1 and not v.keywords else v
+            if isinstance(inner, ast.Name):
+                # a module-level name bound once to a ConfigDict(...) call / dict display in the same module
+                defs = [n.value for n in ci.module.tree.body if isinstance(n, (ast.Assign, ast.AnnAssign)) and n.value is not None
+                        and any(isinstance(t, ast.Name) and t.id == inner.id for t in (n.targets if isinstance(n, ast.Assign) else [n.target]))]
+                if len(defs) == 1 and (isinstance(defs[0], ast.Dict) or (isinstance(defs[0], ast.Call) and ast.unparse(defs[0].func).endswith("ConfigDict"))):
+                    return self._config(ci, defs[0])
             val = try_fold(self.P, ci.module, inner)
             if isinstance(val, dict):
                 for k, x in val.items():
@@ -244,3 +250,29 @@ def _union_members(ann: ast.AST) -> List[ast.AST]:
 
 
 union_members = _union_members
+
+
+# model_config keys by what they do to a wire value.  Only Pydantic reads them (the fallback honours `extra` alone), so a
+# key that rewrites or restricts values is both a loss of fidelity and a disagreement between the backends.
+CONFIG_NEUTRAL = {"extra", "populate_by_name", "arbitrary_types_allowed", "protected_namespaces", "title", "json_schema_extra", "frozen", "validate_assignment", "from_attributes", "defer_build", "validate_default", "revalidate_instances"}
+CONFIG_REWRITING = {"str_strip_whitespace": "strips leading/trailing whitespace (including U+0085, U+2028, U+2029) from every str member", "str_to_lower": "lower-cases every str member", "str_to_upper": "upper-cases every str member",
+                    "coerce_numbers_to_str": "turns numbers into strings", "use_enum_values": "replaces enum members by their values", "str_max_length": "rejects long strings", "str_min_length": "rejects short strings",
+                    "strict": "rejects values Pydantic would otherwise coerce (and the fallback accepts)", "alias_generator": "renames members", "ser_json_inf_nan": "rewrites non-finite numbers", "ser_json_bytes": "re-encodes bytes", "ser_json_timedelta": "re-encodes durations",
+                    "hide_input_in_errors": ""}
+
+
+def config_findings(T: "ModelTable"):
+    """[(model, key, value, effect)] for every model_config entry that is not neutral; raises AnalysisError for a key this table does not know."""
+    out = []
+    for q, m in sorted(T.models.items()):
+        for k, v in sorted(m.config.items()):
+            if k in CONFIG_NEUTRAL or (k in CONFIG_REWRITING and not CONFIG_REWRITING[k]):
+                continue
+            if k in CONFIG_REWRITING:
+                if v in (False, None, "False", "None"):
+                    continue
+                out.append((m, k, v, CONFIG_REWRITING[k]))
+            else:
+                raise AnalysisError(f"{m.ci.module.rel}: {m.name}.model_config sets `{k}`, which the configuration table of these rules does not classify")
+    return out
+
